@@ -68,17 +68,21 @@ type kvAddData struct {
 func (kgdb *KVInterfaceGDB) AddVertex(vertices []*gdbi.Vertex) error {
 	inserted := 0
 	labels := newVertexLabels()
+	var invalid *multierror.Error
 	err := kgdb.kvg.kv.BulkWrite(func(tx kvi.KVBulkWrite) error {
 		var bulkErr *multierror.Error
 		for _, vert := range vertices {
 			v, err := toVertex(vert)
+			if err == nil {
+				err = v.Validate()
+			}
 			if err != nil {
-				bulkErr = multierror.Append(bulkErr, err)
+				// an invalid vertex is skipped and reported, as in BulkAdd; it
+				// does not keep the other vertices from being stored
+				invalid = multierror.Append(invalid, err)
 				continue
 			}
-			if v.Validate() == nil {
-				labels.note(kgdb, v.Gid, v.Label)
-			}
+			labels.note(kgdb, v.Gid, v.Label)
 			if err := insertVertex(tx, kgdb.kvg.idx, kgdb.graph, v); err != nil {
 				bulkErr = multierror.Append(bulkErr, err)
 			} else {
@@ -87,13 +91,20 @@ func (kgdb *KVInterfaceGDB) AddVertex(vertices []*gdbi.Vertex) error {
 		}
 		return bulkErr.ErrorOrNil()
 	})
+	if err != nil {
+		// the bulk write was abandoned: the index keeps describing what is stored
+		if invalid != nil {
+			err = multierror.Append(err, invalid.Errors...)
+		}
+		return err
+	}
 	if inserted > 0 {
-		if rerr := labels.unindexStale(kgdb); rerr != nil && err == nil {
-			err = rerr
+		if rerr := labels.unindexStale(kgdb); rerr != nil {
+			return rerr
 		}
 		kgdb.kvg.ts.Touch(kgdb.graph)
 	}
-	return err
+	return invalid.ErrorOrNil()
 }
 
 func insertVertex(tx kvi.KVBulkWrite, idx *kvindex.KVIndex, graph string, vertex *gripql.Vertex) error {
@@ -233,12 +244,18 @@ func (vl *vertexLabels) unindexStale(kgdb *KVInterfaceGDB) error {
 // in the graph, it is replaced
 func (kgdb *KVInterfaceGDB) AddEdge(edges []*gdbi.Edge) error {
 	written := map[string][]byte{}
+	var invalid *multierror.Error
 	err := kgdb.kvg.kv.BulkWrite(func(tx kvi.KVBulkWrite) error {
 		var bulkErr *multierror.Error
 		for _, edge := range edges {
 			e, err := toEdge(edge)
+			if err == nil {
+				err = e.Validate()
+			}
 			if err != nil {
-				bulkErr = multierror.Append(bulkErr, err)
+				// an invalid edge is skipped and reported, as in BulkAdd; it
+				// does not keep the other edges from being stored
+				invalid = multierror.Append(invalid, err)
 				continue
 			}
 			if ekey, err := insertEdge(tx, kgdb.kvg.idx, kgdb.graph, e); err != nil {
@@ -249,13 +266,20 @@ func (kgdb *KVInterfaceGDB) AddEdge(edges []*gdbi.Edge) error {
 		}
 		return bulkErr.ErrorOrNil()
 	})
+	if err != nil {
+		// the bulk write was abandoned: the earlier versions of the edges stay
+		if invalid != nil {
+			err = multierror.Append(err, invalid.Errors...)
+		}
+		return err
+	}
 	if len(written) > 0 {
-		if rerr := kgdb.removeStaleEdgeKeys(written); rerr != nil && err == nil {
-			err = rerr
+		if rerr := kgdb.removeStaleEdgeKeys(written); rerr != nil {
+			return rerr
 		}
 		kgdb.kvg.ts.Touch(kgdb.graph)
 	}
-	return err
+	return invalid.ErrorOrNil()
 }
 
 // BulkAdd writes the vertices and edges of the stream with one bulk write.
